@@ -13,6 +13,9 @@ for d in sorted(glob.glob("/verif/seeded/C*-*")):
     if pid not in props or pid not in registry.PROPS:
         continue
     wt = "/tmp/seed/" + pid
+    if not os.path.isdir(wt):       # scratch worktree outside /repo and /verif (remove with: git -C /repo worktree remove --force <dir>)
+        os.makedirs("/tmp/seed", exist_ok=True)
+        subprocess.run(["git", "-C", "/repo", "worktree", "add", "--detach", wt, head, "-q"], check=True)
     subprocess.run(["git", "-C", wt, "checkout", "-q", "--", "."]); subprocess.run(["git", "-C", wt, "checkout", "-q", "--detach", head])
     ap = subprocess.run(["git", "-C", wt, "apply", os.path.join(d, "patch.diff")], capture_output=True, text=True)
     if ap.returncode != 0:
